@@ -13,6 +13,7 @@ UNITS = {
     "conditions_parse": {"template": "contracts/conditions_parse.vrs", "rlimit": 60},
     "costs": {"template": "contracts/costs.vrs", "rlimit": 30},
     "streamable_core": {"template": "contracts/streamable_core.vrs", "rlimit": 60},
+    "streamable_derived": {"generator": {"crates": ("chia-protocol",)}, "rlimit": 60},
 }
 
 
@@ -27,7 +28,8 @@ def N(name, task, tier="quick"):
 
 def V(unit, tier="quick"):
     u = UNITS[unit]
-    return {"kind": "verus", "unit": unit, "template": u["template"], "rlimit": u.get("rlimit", 30), "tier": tier}
+    return {"kind": "verus", "unit": unit, "template": u.get("template"), "generator": u.get("generator"),
+            "rlimit": u.get("rlimit", 30), "tier": tier}
 
 
 NOT_BUILT = "check not built yet in this session (design in DESIGN.md §5); will be claimed once its contract unit verifies"
@@ -128,12 +130,12 @@ PROPS["C13"] = {
     "technique": "Verus trait-level contract on the real Streamable trait and impls (extracted verbatim; macro arms expanded by token substitution): stream/update_digest/parse all against one accumulator-style encoding spec enc_onto",
     "level_text": "Deductive proof, modular over the trait: for every impl under contract, stream appends exactly enc, update_digest absorbs exactly enc (so hash == sha256(enc)), and whenever parse (trusted or not: same contract) returns a value the consumed bytes are exactly that value's encoding (canonicity); from_bytes accepts only inputs that are entirely the encoding.",
     "level_note": "Covered impls: 10 integer primitives, bool, (), Option<T>, tuples 2-4, Vec<T>, Bytes, BytesImpl<N>, trait default methods. Not yet: String, [T;N], Program, BLS elements, derived structs, hand-written versioned codecs (listed in not_covered). The decode(encode(x)) == x direction is argued by composition (prefix-free encodings) and not machine-checked.",
-    "components": [V("streamable_core")],
+    "components": [V("streamable_core"), V("streamable_derived")],
     "assumptions": _STREAM_ASSUME,
     "not_covered": [
         "round-trip direction decode(encode(x)) == x (needs prefix-freeness lemmas per type)",
         "String, [T;N], Program, PublicKey/Signature impls",
-        "derive(Streamable) impls (~140) and FullBlock/UnfinishedBlock/ProofOfSpace hand-written codecs",
+        "derive(Streamable) impls outside chia-protocol (chia-consensus owned conditions, chia-datalayer); derived enums; the 6 hand-written codecs (FullBlock, UnfinishedBlock, ProofOfSpace, RewardChainBlock, SubEpochSummary, SubEpochData)",
     ],
 }
 PROPS["C14"] = {
@@ -141,7 +143,7 @@ PROPS["C14"] = {
     "technique": "Verus safety obligations generated from the real decoder bodies: every index, cast, addition, unwrap and loop in read_bytes and the covered impls; explicit allocation-cap obligation on Vec::with_capacity; from_bytes trailing/missing-bytes postcondition",
     "level_text": "Deductive proof that for every byte string and cursor position, read_bytes and every covered parse impl neither index out of range nor overflow (pos <= len is an invariant of every parse), terminate (loops bounded by the u32 length prefix), allocate at most 2 MiB up front, and from_bytes rejects trailing or missing bytes; stream/update_digest/hash have no precondition beyond what parse establishes (wf).",
     "level_note": "Same impl coverage and assumptions as C13. Memory = capacity argument of with_capacity; time = iteration counts.",
-    "components": [V("streamable_core")],
+    "components": [V("streamable_core"), V("streamable_derived")],
     "assumptions": _STREAM_ASSUME,
     "not_covered": [
         "String, [T;N], Program (serialized_length_from_bytes), BLS element decoders",
